@@ -728,7 +728,7 @@ func main() {
 	must(os.MkdirAll(*out, 0o755))
 	r := hx.NewRng(*seed)
 	sum := hx.NewSummary("C15")
-	sum.Rule = "invocations of actionlint.Command.Main on a scratch repository (4 workflow files, 14 distinct messages of 10 rules): cwd in {root, parent, grandparent, 3 nested, unrelated} x spelling in {relative, ./, absolute, noisy (detours, //), no arguments} x 1-3 files x 0-3 `paths` entries from a pool of 20 globs x ignore patterns from a pool of 20 regular expressions (CLI only / config only / both) + 11 exit-status invocations (help, version, bad flags, fatal errors) + a nested-repository stream (an inner repository with its own configuration inside the scratch repository; 2-4 files of both in any order; oracle only) + ignore lists led by a pattern with inline flags that matches nothing; non-trivial = at least one diagnostic was filtered out and at least one remained; distinct = distinct (cwd, args, config)"
+	sum.Rule = "invocations of actionlint.Command.Main on a scratch repository (4 workflow files, 14 distinct messages of 10 rules): cwd in {root, parent, grandparent, 3 nested, unrelated} x spelling in {relative, ./, absolute, noisy (detours, //), no arguments} x 1-3 files x 0-3 `paths` entries from a pool of 20 globs x ignore patterns from a pool of 20 regular expressions (CLI only / config only / both) + 11 exit-status invocations (help, version, bad flags, fatal errors) + a nested-repository stream (an inner repository with its own configuration inside the scratch repository; 2-4 files of both in any order; oracle + model run_c15n) + ignore lists led by a pattern with inline flags that matches nothing; non-trivial = at least one diagnostic was filtered out and at least one remained; distinct = distinct (cwd, args, config)"
 	cases, err := os.Create(filepath.Join(*out, "cases.txt"))
 	must(err)
 	defer cases.Close()
@@ -798,6 +798,19 @@ func main() {
 	}
 	// nested repositories (oracle only)
 	nbase := l.nbaseline()
+	nmsgSet := map[string]bool{}
+	for _, ds := range nbase {
+		for _, d := range ds {
+			nmsgSet[d.Msg] = true
+		}
+	}
+	nmsgs := hx.SortedKeys(nmsgSet)
+	ncases, err := os.Create(filepath.Join(*out, "cases_nested.txt"))
+	must(err)
+	defer ncases.Close()
+	nspecsOut, err := os.Create(filepath.Join(*out, "specs_nested.jsonl"))
+	must(err)
+	defer nspecsOut.Close()
 	rn := hx.NewRng(*seed + 7777)
 	for i := 0; i < *n/3+20; i++ {
 		ns := genNested(rn)
@@ -814,8 +827,19 @@ func main() {
 		} else if mixed {
 			sum.Dist["nested:inner-file-first"]++
 		}
-		if nf := l.evalNested(ns, nbase); nf != nil {
+		nf := l.evalNested(ns, nbase)
+		if nf != nil {
 			sum.OracleFails = append(sum.OracleFails, nf)
+		}
+		if nf == nil || nf.Got != nil {
+			got, status, _, perr := l.nrun(ns)
+			if perr == nil {
+				if term := l.coqNCase(ns, nbase, nmsgs, got, status); hx.CoqStrOK(term) {
+					fmt.Fprintln(ncases, term)
+					sb, _ := json.Marshal(map[string]interface{}{"nested_spec": ns, "args": l.nargs(ns), "cwd": l.cwd(ns.CwdKind)})
+					fmt.Fprintln(nspecsOut, string(sb))
+				}
+			}
 		}
 	}
 	l.nwriteCfg(&nspec{})
